@@ -2,6 +2,7 @@
 import ast
 
 from .. import dispatch
+from ..cfg import CFG
 from ..report import borrow, AnalysisError, norm
 from ..srcmodel import own_nodes, own_statements
 from ..terms import Resolver, alternatives, show, walk
@@ -57,39 +58,63 @@ def r1_number_arms(rep, ctx):
     rets = [r for r in own_nodes(fn.node) if isinstance(r, ast.Return) and r.value is not None]
     rep.floor("C09.R1", "returns of Scalar._DoOperation", len(rets), 1)
     n_arms = 0
+    cfg = CFG(fn.node)
+    _f, callbacks = dispatch.number_callbacks(m, "Scalar")
+
+    def is_callback(t):
+        # the callback parameter, or the entry of a constant table of operator functions for this operation
+        if t[0] == "param" and t[1] == 4:
+            return True
+        return t[0] == "sub" and t[1][0] == "dict" and t[2] == ("param", P.get("operation"), "operation") and all(v_[0] == "opfn" for _k, v_ in t[1][1])
+
+    def own_cwq(t):
+        own = (("attr", ("self",), "__class__"), ("field", "__class__"), ("call", ("name", "type"), (("self",),), ()))
+        return t[0] == "call" and t[1][0] == "attr" and t[1][2] == "CreateWithQuantity" and all(x in own for x in alternatives(t[1][1])) and len(t[2]) >= 2
+
     for i, r in enumerate(rets):
         v = r.value
         key = "Scalar._DoOperation:return%d:%s" % (i, norm(ast.unparse(v))[:50])
-        is_cwq = isinstance(v, ast.Call) and _is_own_cwq(res, v.func)
-        if not is_cwq:
+        vt = res.term(v)
+        alts = alternatives(vt)
+        if not all(own_cwq(a_) for a_ in alts):
             rep.bad("C09.R1", key, "Scalar._DoOperation can return `%s`: the result is not a new object built by CreateWithQuantity (a shortcut that returns an operand, or a bare number, skips the operation or strips the unit)" % ast.unparse(v), node=r, fn=fn)
             continue
-        q, val = v.args[0], v.args[1] if len(v.args) > 1 else None
-        qt = res.term(q)
-        if qt == ("field", "_quantity"):
-            # a number arm: callback(p1, self._value) or callback(self._value, p2)
-            n_arms += 1
-            ok = False
-            if isinstance(val, ast.Call) and isinstance(val.func, ast.Name) and val.func.id == fn.params[4] and len(val.args) == 2:
-                a0, a1 = (res.term(x) for x in val.args)
-                left_number = a0 == ("param", P["p1"], "p1") and a1 == ("field", "_value")
-                right_number = a0 == ("field", "_value") and a1 == ("param", P["p2"], "p2")
-                # which guard dominates?
-                par = r._parent
-                guard = ast.unparse(par.test) if isinstance(par, ast.If) else ""
-                gt = show(res.term(par.test), 300) if isinstance(par, ast.If) else ""
-                if left_number:
-                    ok = "IsNumber($p1)" in gt and ("Divide" in gt) and ("NotIn" in gt or "not in" in guard or "Not(" in gt or "not " in guard)
-                elif right_number:
-                    ok = gt.replace(" ", "") == "IsNumber($p2)"
-            rep.check(ok, "C09.R1", key, "a number arm keeps the object's quantity and applies the callback with the operands in their written order, under the matching guard",
-                      "the number arm `%s` does not apply callback(number, own value) / callback(own value, number) under its guard" % norm(ast.unparse(r))[:100], node=r, fn=fn)
-        else:
-            ok = all(a[0] == "sub" and a[2] == ("const", 0) for a in alternatives(qt))
-            rep.check(ok, "C09.R1", key, "the general arm builds the result with the quantity returned by the database operation", "the general arm builds the result with %s" % show(qt, 80), node=r, fn=fn)
+        facts_here = [(res.term(e_), val_, e_) for e_, val_ in cfg.facts_at(cfg.node_of(r))]
+        # (facts of the site where the result was built, when the return hands on a local)
+        if isinstance(v, ast.Name):
+            for (ost, _ot), chain in zip(res.origins(v), list(res.origin_chains)):
+                for site in [ost] + chain:
+                    if site is not None:
+                        facts_here += [(res.term(e_), val_, e_) for e_, val_ in cfg.facts_at(cfg.node_of(site))]
+
+        def holds(pred):
+            return any(pred(t_, val_, e_) for t_, val_, e_ in facts_here)
+
+        for a_ in alts:
+            qt, val = a_[2][0], a_[2][1]
+            if qt == ("field", "_quantity"):
+                # a number arm: callback(p1, self._value) or callback(self._value, p2)
+                n_arms += 1
+                ok = False
+                if val[0] == "call" and is_callback(val[1]) and len(val[2]) == 2 and not val[3]:
+                    a0, a1 = val[2]
+                    left_number = a0 == ("param", P["p1"], "p1") and a1 == ("field", "_value")
+                    right_number = a0 == ("field", "_value") and a1 == ("param", P["p2"], "p2")
+                    is_num = lambda t_, p_: t_[0] == "call" and t_[1] == ("name", "IsNumber") and t_[2] == (("param", P[p_], p_),)
+                    if left_number:
+                        not_division = lambda t_, val_, e_: t_[0] == "op" and t_[1] in ("cmp:NotIn", "cmp:In") and (t_[1] == "cmp:NotIn") == bool(val_) and t_[2][0] == ("param", P["operation"], "operation") \
+                            and {x[1] for x in walk(t_[2][1]) if x[0] == "const"} == {"Divide", "FloorDivide"}
+                        ok = holds(lambda t_, val_, e_: is_num(t_, "p1") and val_) and holds(not_division)
+                    elif right_number:
+                        ok = holds(lambda t_, val_, e_: is_num(t_, "p2") and val_)
+                rep.check(ok, "C09.R1", key, "a number arm keeps the object's quantity and applies the callback with the operands in their written order, under the matching guard",
+                          "the number arm `%s` does not apply callback(number, own value) / callback(own value, number) under its guard" % norm(ast.unparse(r))[:100], node=r, fn=fn)
+            else:
+                ok = all(x[0] == "sub" and x[2] == ("const", 0) for x in alternatives(qt))
+                rep.check(ok, "C09.R1", key, "the general arm builds the result with the quantity returned by the database operation", "the general arm builds the result with %s" % show(qt, 80), node=r, fn=fn)
     rep.check(n_arms == 2, "C09.R1", "Scalar._DoOperation:two-number-arms", "there is one arm for a number on the left and one for a number on the right", "%d number arms found" % n_arms, fn=fn)
     # number on the left of a division: empty quantity on the left
-    calls = [c for c in own_nodes(fn.node) if isinstance(c, ast.Call) and isinstance(c.func, ast.Name) and c.func.id == "operation_func"]
+    calls = [c for c in own_nodes(fn.node) if isinstance(c, ast.Call) and any(x[0] == "call" and x[1] == ("name", "getattr") for x in alternatives(res.term(c.func)))]
     found = False
     for c in calls:
         a = [res.term(x) for x in c.args]
